@@ -11,6 +11,15 @@
 #include <unistd.h>
 
 #include <atomic>
+#include <barrier>
+#include <chrono>
+#include <condition_variable>
+#include <future>
+#include <latch>
+#include <mutex>
+#include <semaphore>
+#include <shared_mutex>
+#include <stop_token>
 #include <functional>
 #include <limits>
 #include <map>
@@ -125,7 +134,7 @@ extern RunFlags g_flags;
 class Thread {
 public:
   Thread() noexcept = default;
-  template <typename F, typename... A, typename = std::enable_if_t<!std::is_same_v<std::decay_t<F>, Thread>>>
+  template <typename F, typename... A, typename = std::enable_if_t<!std::is_base_of_v<Thread, std::decay_t<F>>>>
   explicit Thread(F&& f, A&&... a) {
     // std::thread semantics: decay-copy the callable and its arguments, invoke them on the new thread
     if (g_flags.first_spawn_fails && g_flags.threads_created == 0 && !g_flags.spawn_failed) {
@@ -159,7 +168,7 @@ public:
   void detach() { id = -1; }
   static unsigned hardware_concurrency() noexcept { return g_flags.hardware_concurrency; }
 
-private:
+protected:
   void destroyed_joinable() {
     // std::terminate in a real program; here: record it (unless the run is being aborted) and make
     // sure the task is gone before its captured references die
@@ -168,6 +177,140 @@ private:
     id = -1;
   }
   int id = -1;
+};
+
+// std::jthread: joins in its destructor (the stop token is not modelled: request_stop() has no effect, which is
+// what a callable that does not take a token sees)
+class JThread : public Thread {
+public:
+  JThread() noexcept = default;
+  template <typename F, typename... A, typename = std::enable_if_t<!std::is_same_v<std::decay_t<F>, JThread>>>
+  explicit JThread(F&& f, A&&... a) : Thread(std::forward<F>(f), std::forward<A>(a)...) {}
+  JThread(JThread&& o) noexcept : Thread(static_cast<Thread&&>(o)) {}
+  JThread& operator=(JThread&& o) noexcept(false) {
+    join_if_needed();
+    Thread::operator=(static_cast<Thread&&>(o));
+    return *this;
+  }
+  ~JThread() noexcept(false) { join_if_needed(); }
+  bool request_stop() noexcept { return false; }
+
+private:
+  void join_if_needed() {
+    if (!joinable()) return;
+    if (vpar::aborting()) {
+      destroyed_joinable_quietly();
+      return;
+    }
+    try {
+      join();
+    } catch (const vsim::AbortRun&) {
+      destroyed_joinable_quietly(); // the run is being unwound: make sure the task is gone, do not throw from here
+    }
+  }
+  void destroyed_joinable_quietly() {
+    vpar::drain(id);
+    id = -1;
+  }
+};
+
+extern "C" {
+void __tsan_acquire(void*) __attribute__((weak));
+void __tsan_release(void*) __attribute__((weak));
+}
+
+// std::mutex for cooperative tasks: lock() is a scheduling point and waits (blocked, not spinning) while
+// another task holds the lock. The TSan build sees the usual release/acquire edge.
+class Mutex {
+public:
+  Mutex() noexcept = default;
+  Mutex(const Mutex&) = delete;
+  Mutex& operator=(const Mutex&) = delete;
+  void lock() {
+    vpar::yield_point("mutex.lock");
+    while (locked) vpar::wait_on(this, UINT64_MAX);
+    locked = true;
+    if (__tsan_acquire) __tsan_acquire(this);
+  }
+  bool try_lock() {
+    vpar::yield_point("mutex.try_lock");
+    if (locked) return false;
+    locked = true;
+    if (__tsan_acquire) __tsan_acquire(this);
+    return true;
+  }
+  void unlock() {
+    if (__tsan_release) __tsan_release(this);
+    locked = false;
+    vpar::wake_all(this);
+    if (!vpar::aborting()) vpar::yield_point("mutex.unlock");
+  }
+
+private:
+  std::atomic<bool> locked{false}; // (an atomic so that the TSan build does not report the shim's own flag)
+};
+
+// std::condition_variable over that mutex. Waits are in simulated time; a wait may also end spuriously (the
+// scheduler's early timer), as the standard allows.
+class CondVar {
+public:
+  CondVar() noexcept = default;
+  CondVar(const CondVar&) = delete;
+  void notify_one() { notify_all(); } // waking more waiters than asked is a legal (spurious) wake-up
+  void notify_all() {
+    vpar::yield_point("cv.notify");
+    gen++;
+    vpar::wake_all(this);
+  }
+  template <typename L>
+  void wait(L& lk) {
+    (void)wait_us(lk, UINT64_MAX);
+  }
+  template <typename L, typename P>
+  void wait(L& lk, P pred) {
+    while (!pred()) wait(lk);
+  }
+  template <typename L, typename Rep, typename Per>
+  std::cv_status wait_for(L& lk, const std::chrono::duration<Rep, Per>& d) {
+    return wait_us(lk, us_of(d)) ? std::cv_status::no_timeout : std::cv_status::timeout;
+  }
+  template <typename L, typename Rep, typename Per, typename P>
+  bool wait_for(L& lk, const std::chrono::duration<Rep, Per>& d, P pred) {
+    uint64_t deadline = vpar::now_us() + us_of(d);
+    while (!pred()) {
+      uint64_t now = vpar::now_us();
+      if (now >= deadline) return pred();
+      (void)wait_us(lk, deadline - now);
+    }
+    return true;
+  }
+  template <typename L, typename C, typename D>
+  std::cv_status wait_until(L& lk, const std::chrono::time_point<C, D>& tp) {
+    return wait_for(lk, tp - C::now());
+  }
+  template <typename L, typename C, typename D, typename P>
+  bool wait_until(L& lk, const std::chrono::time_point<C, D>& tp, P pred) {
+    return wait_for(lk, tp - C::now(), pred);
+  }
+
+private:
+  template <typename Rep, typename Per>
+  static uint64_t us_of(const std::chrono::duration<Rep, Per>& d) {
+    auto us = std::chrono::duration_cast<std::chrono::microseconds>(d).count();
+    return us <= 0 ? 0 : (uint64_t)us;
+  }
+  // true = notified (or spurious), false = time limit reached without a notification
+  template <typename L>
+  bool wait_us(L& lk, uint64_t limit) {
+    uint64_t g0 = gen;
+    uint64_t deadline = limit == UINT64_MAX ? UINT64_MAX : vpar::now_us() + limit;
+    lk.unlock();
+    if (gen == g0) vpar::wait_on(this, limit);
+    bool notified = gen != g0 || (deadline != UINT64_MAX && vpar::now_us() < deadline);
+    lk.lock();
+    return notified;
+  }
+  std::atomic<uint64_t> gen{0};
 };
 
 inline int vs_usleep(uint64_t us) {
@@ -184,6 +327,9 @@ namespace std {
 template <typename T>
 using vsim_atomic = ::vshim::Atomic<T>;
 using vsim_thread = ::vshim::Thread;
+using vsim_jthread = ::vshim::JThread;
+using vsim_mutex = ::vshim::Mutex;
+using vsim_condition_variable = ::vshim::CondVar;
 } // namespace std
 namespace phosg {
 inline uint64_t vsim_now() { return ::vshim::vs_now(); }
@@ -192,11 +338,17 @@ inline int vsim_usleep(uint64_t us) { return ::vshim::vs_usleep(us); }
 
 #define atomic vsim_atomic
 #define thread vsim_thread
+#define jthread vsim_jthread
+#define mutex vsim_mutex
+#define condition_variable vsim_condition_variable
 #define usleep vsim_usleep
 #define now vsim_now
 #include "Tools.hh"
 #undef atomic
 #undef thread
+#undef jthread
+#undef mutex
+#undef condition_variable
 #undef usleep
 #undef now
 
